@@ -211,9 +211,20 @@ def _qfnra():
     return z3.Then("simplify", "solve-eqs", "qfnra-nlsat").solver()
 
 
-def discharge(tr, hyps, goal, stats, budget_s=30.0, quick_ms=3000):
+def discharge(tr, hyps, goal, stats, budget_s=30.0, quick_ms=3000, rules=None):
     """Decide  hyps |= goal.  Returns (verdict, model) with verdict in
-    'unsat' (goal holds for all values), 'sat' (counterexample model), 'unknown'."""
+    'unsat' (goal holds for all values), 'sat' (counterexample model), 'unknown'.
+    rules: optional expr.Rules built from the equalities among hyps - the goal's polynomials are first
+    reduced modulo them (sound: adds multiples of hypotheses); the reduced goal goes to z3."""
+    if goal.op != "true" and rules is not None and rules.rules:
+        g2 = rules.reduce_b(goal)
+        if g2.op == "true":
+            stats.queries += 1
+            stats.unsat += 1
+            stats.by_stage["hyp-rewriting:unsat"] = stats.by_stage.get("hyp-rewriting:unsat", 0) + 1
+            return "unsat", None
+        if g2.op != "false":
+            goal = g2
     if goal.op == "true":
         stats.queries += 1
         stats.unsat += 1
